@@ -200,6 +200,9 @@ type world struct {
 	headNode  int // node of CurrentBlock after the last operation
 	finalNode int // node of the finalized block (-2 = none)
 	prevMaxDL int
+	// node of the block whose log was announced twice (classification of a finding)
+	dupLogBlock   int
+	missLogBlocks []int // nodes whose logs were never announced
 }
 
 type logKey struct {
@@ -249,7 +252,7 @@ func newWorld(knobs Knobs, tree *refTree, res *simcore.Result, bubble bool) (*wo
 	}
 	w := &world{knobs: knobs, tree: tree, root: root, clock: &simdisk.Clock{}, res: res, bubble: bubble,
 		live: map[logKey]bool{}, universe: tree.universe(), trace: simcore.NewHash(), stateFP: simcore.NewHash(),
-		headNode: -1, finalNode: -2}
+		headNode: -1, finalNode: -2, dupLogBlock: -2}
 	w.kv = simdisk.NewSimKV(w.clock)
 	w.rec = simos.NewRecorder(root)
 	w.rec.NextSeq = w.clock.Next
